@@ -14,7 +14,7 @@ META = {
     "assumptions": ["garbage that contains the frame-start marker and frames with bad checksums are C10's subject"],
 }
 REQUIRED_ORACLES = ["delivery", "journal", "state-and-tap"]
-REQUIRED_COUNTERS = ["streams_ending_on_a_full_4096_byte_read", "cases_over_4096_bytes", "cases_with_garbage", "streams_with_a_frame_the_session_layer_chokes_on",
+REQUIRED_COUNTERS = ["streams_with_a_zero_padded_bodylength", "streams_ending_on_a_full_4096_byte_read", "cases_over_4096_bytes", "cases_with_garbage", "streams_with_a_frame_the_session_layer_chokes_on",
                      "client_connects_with_a_read_boundary_inside_the_first_frame"]
 NSHARDS = 16
 
@@ -44,6 +44,15 @@ def make_frames(rnd, peer, kinds):
             # well framed, but the session layer chokes on it (MsgSeqNum is not a number): logged and dropped, whatever the chunking -
             # and the frames around it are handled as if it had not been there
             fr.append(("x", peer.frame("D", "abc", [(11, "bad%d" % rnd.randrange(1000)), (55, "X")])))
+        elif k == "zpad":
+            # BodyLength written with leading zeros (a legal FIX int, some engines pad it to a fixed width): the frame is as long as
+            # its bytes say, not as long as a re-rendered "9=<n>" would make it
+            fb = peer.frame("D", None, [(11, "z%d" % rnd.randrange(1000)), (55, "PAD")])
+            head, rest = fb.split(b"\x01", 1)
+            bl, rest = rest.split(b"\x01", 1)
+            body = rest[:rest.rindex(b"10=")]
+            f0 = head + b"\x01" + b"9=" + bl[2:].rjust(rnd.choice([4, 6, 9]), b"0") + b"\x01" + body
+            fr.append(("a", f0 + b"10=%03d\x01" % (sum(f0) % 256)))
         elif k == "mk":
             # a valid frame whose Text quotes a BeginString: the frame-start text inside a value is not a frame start
             fr.append(("a", peer.frame("j", None, [(45, 7), (58, "Unsupported BeginString 8=FIX.4.2 (expected 8=FIX.4.4)"), (380, 0)])))
@@ -239,6 +248,7 @@ def run_shard(spec, acc):
         combos = [["hb", "small"], ["small", "tr"], ["nos"], ["small", "hb", "small"], ["tr", "small"], ["hb", "hb", "small"],
                   ["grp"], ["nos", "hb"], ["small", "small", "small"], ["hb", "nos"], ["grp", "small"], ["tr", "nos"]]
         combos[2:2] = [["mk", "small"]]       # a value that contains the frame-start text, under every 1-/2-cut partition
+        combos[1:1] = [["zpad", "small"]]     # a zero-padded BodyLength, under every 1-/2-cut partition
         idx = 0
         for si in range(spec["nstreams"]):
             peer = E.Peer("PEER", "ME")
@@ -345,7 +355,9 @@ def run_shard(spec, acc):
             rnd = random.Random(f"{spec['seed']}:C03:{shard}:{c}")
             peer = E.Peer("PEER", "ME")
             peer.next_out = 2
-            kinds = [rnd.choice(["hb", "tr", "nos", "grp", "big", "small", "mk"]) for _ in range(rnd.randrange(1, 5))]
+            kinds = [rnd.choice(["hb", "tr", "nos", "grp", "big", "small", "mk", "zpad"]) for _ in range(rnd.randrange(1, 5))]
+            if "zpad" in kinds:
+                acc.add("streams_with_a_zero_padded_bodylength")
             if rnd.random() < 0.25:
                 kinds.insert(rnd.randrange(len(kinds) + 1), "bad34")
                 kinds.append(rnd.choice(["nos", "small"]))
